@@ -552,6 +552,9 @@ def directed_cases(rng):
     case("all_arities", (u + f) * (v + g) * dx(1) + ufl.conj(v) * dx(2), [v], [u], [(v, u)], affine=False)
     case("list_tensor_rows", ufl.dot(ufl.as_vector([u * f, u.dx(0)]), ufl.as_vector([v, 2 * v])) * dx(1) + ufl.as_vector([f * v, 0])[0] * dx(2), [v], [u], [(v, u)])
     case("vector_dS", ufl.inner(ufl.jump(uu), ufl.avg(vv)) * ufl.dS(domain=mesh, subdomain_id=1) + ufl.inner(h("+"), vv("-")) * ufl.dS(domain=mesh, subdomain_id=2), [vv], [uu], [(vv, uu)])
+    # a bilinear and a linear (and an argument-free) term sharing the numerator of one division
+    case("shared_numerator", (u * v + f * v) / (g + 3) * dx(1) + ((u * v.dx(0) + g * v) / (f * f + 2) + (f * v) / (g * g + 1)) * dx(2), [v], [u], [(v, u)])
+    case("shared_numerator_all", ((u + f) * v + g * v) / (f * f + 2) * dx(1), [v], [u], [(v, u)])
     # MixedFunctionSpace
     W = ufl.MixedFunctionSpace(V, Q)
     u0, u1 = ufl.TrialFunctions(W)
@@ -689,6 +692,21 @@ class C16(Prop):
                 self.keep.append(f)
                 c.En = add("energy", "(energy %s %s %s)" % (fs, uflio.ser(f, memo), uflio.enc(repr(f.ufl_function_space()))),
                            lambda: ft.compute_energy_norm(E, f))
+                # without an explicit coefficient: ONE new coefficient in the trial space, used for both arguments
+                try:
+                    from ufl.algorithms import replace as _replace
+                    from ufl.algorithms.analysis import extract_coefficients as _ec
+                    En0 = ft.compute_energy_norm(E, None)
+                    new = [w_ for w_ in _ec(En0) if w_ not in set(_ec(E))]
+                    ok0 = len(new) == 1 and new[0].ufl_function_space() == args[1].ufl_function_space()
+                    if ok0:
+                        ok0 = _replace(En0, {new[0]: f}) == ft.compute_energy_norm(E, f)
+                    self.energy_default = getattr(self, "energy_default", 0) + 1
+                    if not ok0 and _ec(ft.compute_energy_norm(E, f)):
+                        self.bad.append(("energy_norm(a) without a coefficient is not a(w, w) for one new coefficient w of the trial space (new coefficients: %d)" % len(new),
+                                         dict(kind="value:energy_norm-default-coefficient", form=str(E)[:200])))
+                except Exception:  # noqa
+                    pass
             if has_parts:
                 nparts = max(a.part() for a in args if a.part() is not None) + 1
                 for (ix, iy) in [(0, 0), (0, None), (nparts - 1, 0), (1, 1)][: (3 if ctx.quick else 4)]:
